@@ -190,13 +190,21 @@ C09ok(E, tags, q) ==
       s == CutTerminal(EmittedEvents(E, 1))
       cbs == CbStarts(E, 1)
       unsub == UnsubRetP(E, 1)
-      emitThreads == { E[p].t : p \in { p \in Pos(E) : E[p].ev = "emitcall" } }
+      \* tag "feedback": subscriber 1's callback pushes one more item into the source from the worker (events with fb = 1); the order
+      \* of that item relative to the emitter's own is then decided by the scheduler's queue, not by the call order
+      fb == HasTag(tags, "feedback")
+      emitThreads == { E[p].t : p \in { p \in Pos(E) : E[p].ev = "emitcall" /\ E[p].fb = 0 } }
+      fbvals == { E[p].v : p \in { p \in Pos(E) : E[p].ev = "emitcall" /\ E[p].fb = 1 } }
   IN (HasTag(tags, "observe_on") \/ HasTag(tags, "subscribe_on")) =>
      /\ (~HasTag(tags, "cold3") => \A p1, p2 \in cbs : E[p1].t = E[p2].t)                 \* all on one thread ...
      /\ \A p \in cbs : E[p].t # 0 /\ (HasTag(tags, "observe_on") => E[p].t \notin emitThreads)     \* ... that is neither the subscribing nor the emitting thread
      /\ \A p1, p2 \in cbs : p1 < p2 => \E e \in (p1 + 1)..(p2 - 1) : E[e].ev = "cbend" /\ E[e].u = 1     \* never two callbacks at once
-     /\ (HasTag(tags, "cold3") \/ IsPrefixOf(d, s))                                      \* source order, nothing invented, terminal last
-     /\ (unsub = 0 /\ HasTag(tags, "observe_on") /\ ~HasTag(tags, "cold3") => d = s)      \* nothing lost
+     /\ (HasTag(tags, "cold3") \/ fb \/ IsPrefixOf(d, s))                                \* source order, nothing invented, terminal last
+     /\ (unsub = 0 /\ HasTag(tags, "observe_on") /\ ~HasTag(tags, "cold3") /\ ~fb => d = s)      \* nothing lost
+     /\ (fb => LET dv == Delivered(E, 1)
+                   own == SelectSeq(Emitted(E, 1), LAMBDA v : v \notin fbvals)
+               IN /\ SelectSeq(dv, LAMBDA v : v \notin fbvals) = own        \* the emitter's items: all, in its order
+                  /\ NoDup(dv) /\ \A v \in fbvals : \E i \in 1..Len(dv) : dv[i] = v)      \* the fed-back item: once
      /\ (HasTag(tags, "subscribe_on") /\ unsub = 0 => d = IF HasTag(tags, "cold3") THEN << <<"n", 1>>, <<"n", 2>>, <<"n", 3>>, <<"c", 0>> >> ELSE s)
      \* a cold source 1,2,3: every subscriber of the same observable gets all of it (each subscription has its own worker)
      /\ (HasTag(tags, "cold3") => \A u \in Subscribers(E) : DeliveredEvents(E, u) = << <<"n", 1>>, <<"n", 2>>, <<"n", 3>>, <<"c", 0>> >>)
